@@ -169,7 +169,7 @@ func (rep *report) finish(ld *loaded, known map[string]knownFinding, noReplay bo
 			samples = append(samples, map[string]interface{}{"harness": hr.Name, "path": s.Samples[0]})
 		}
 		ph := map[string]interface{}{"harness": hr.Name, "stage": hr.Stage, "paths": s.Paths, "outcomes": s.Outcomes,
-			"obligations_reached": s.AssertsSeen, "obligations_discharged_unsat": s.AssertsOK, "wall_s": round2(s.WallS), "queries": s.Queries, "obligations_closed_by_term_identity": s.Trivial, "obligations_unsat_by_second_solver": s.SecondOpinion}
+			"obligations_reached": s.AssertsSeen, "obligations_discharged_unsat": s.AssertsOK, "wall_s": round2(s.WallS), "queries": s.Queries, "solver_cpu_s": round2(s.SolverS), "obligations_closed_by_term_identity": s.Trivial, "obligations_unsat_by_second_solver": s.SecondOpinion}
 		if len(hr.Subst) > 0 {
 			ph["summaries_substituted"] = hr.Subst
 		}
